@@ -382,6 +382,8 @@ def build_any(r):
         return USER_NS[cname](*args)
     if tag == "reduceall":
         return build_any(r[2]).reduce(gen_terms.OPS[r[1]])
+    if tag == "align":
+        return build_any(r[1]).align(tuple(r[2]))
     if tag == "binary":
         return gen_terms.OPS[r[1]](build_any(r[2]), build_any(r[3]))
     if tag == "unary":
@@ -457,7 +459,7 @@ def gen_user_term(rng, k, rot):
 SUBS_PATTERNS = ["num+rename-onto-key", "index+rename-onto-key", "swap", "chain", "diagonal",
                  "slice+rename-onto-key", "rename-onto-survivor", "index-on-other-key+num", "index-same-name+rename",
                  "num+rename-onto-key+third", "chain3", "index+swap"]
-SUBS_GRID = [(p, b) for b in ("mul", "add") for p in SUBS_PATTERNS]
+SUBS_GRID = [(p, b) for b in ("mul", "add", "sub") for p in SUBS_PATTERNS]
 
 
 def gen_subs_grid(rng, k, rot):
@@ -522,6 +524,146 @@ def gen_subs_grid(rng, k, rot):
     return ctx, recipe
 
 
+# ---------------------------------------------------------------------------------------------
+# variadic nodes that list the SAME child twice next to a deeper sibling
+# ---------------------------------------------------------------------------------------------
+
+DUP_SHAPES = ["stack-aab", "stack-baa", "stack-aba", "cat-aab", "sum-aab", "prod-aab", "stack-aab-in-stack",
+              "max-aab", "sub-aab", "sub-baa"]
+DUP_WRAPS = ["subs-both", "plain", "subs-swap", "reduce"]
+DUP_GRID = [(wr, sh) for wr in DUP_WRAPS for sh in DUP_SHAPES]
+
+
+def gen_dup_children(rng, k, rot):
+    """V(a, a, b): `a` is ONE hash-consed object (the same ndarray builds the same Tensor) occurring twice,
+    `b` is a deeper sibling; placed below a root and, in the subs wrappers, substituted at names of both
+    (the lazy routes rebuild V through substitute()/anf, the stack-free reinterpreter through anf)."""
+    wrap, shape = DUP_GRID[k] if k < len(DUP_SHAPES) else DUP_GRID[(k + rot) % len(DUP_GRID)]
+    s = rng.choice([2, 3])
+    ctx = OrderedDict((n, s) for n in ("i", "j", "l"))
+    ctx["k"] = 3
+    t1 = gen_terms.gen_tensor(rng, ctx, "real", names=["i"])
+    t2 = gen_terms.gen_tensor(rng, ctx, "real", names=["j"])
+    a = ("binary", rng.choice(["mul", "add"]), t1, gen_terms.gen_tensor(rng, ctx, "real", names=["i", "l"]))
+    b = ("unary", "neg", ("binary", "add", ("binary", "mul", t2, gen_terms.gen_tensor(rng, ctx, "real", names=["i", "j"])),
+                          ("unary", "abs", gen_terms.gen_tensor(rng, ctx, "real", names=["j", "l"]))))
+    if rng.random() < 0.3:
+        a = t1                                   # the repeated child may be a leaf
+    if shape == "stack-aab":
+        V = ("stack", "k", (a, a, b))
+    elif shape == "stack-baa":
+        V = ("stack", "k", (b, a, a))
+    elif shape == "stack-aba":
+        V = ("stack", "k", (a, b, a))
+    elif shape == "cat-aab":
+        def part(x):       # Cat parts need the concatenated input
+            return ("binary", "add", x, gen_terms.gen_tensor(rng, dict(ctx, k=1), "real", names=["k"]))
+        pa = part(a)
+        V = ("cat", "k", (pa, pa, part(b)))
+    elif shape == "sum-aab":
+        V = ("binary", "add", ("binary", "add", a, a), b)      # normalize: Contraction(null, add, (a, a, b))
+    elif shape == "prod-aab":
+        V = ("binary", "mul", ("binary", "mul", a, a), b)
+    elif shape == "max-aab":
+        V = ("binary", "max", ("binary", "max", a, a), b)
+    elif shape == "sub-aab":
+        V = ("binary", "sub", ("binary", "sub", a, a), b)
+    elif shape == "sub-baa":
+        V = ("binary", "sub", b, ("binary", "sub", a, a))
+    else:
+        inner = ("stack", "k", (a, a, b))
+        V = ("stack", "m", (inner, inner, ("unary", "neg", inner)))
+    root = ("binary", "add", V, gen_terms.gen_tensor(rng, ctx, "real", names=["l"]))
+    if wrap == "subs-both":
+        recipe = ("subs", root, (("i", ("num", rng.randrange(s), s)), ("j", ("num", rng.randrange(s), s))))
+    elif wrap == "subs-swap":
+        recipe = ("subs", root, (("i", ("var", "j", s)), ("j", ("var", "i", s))))
+    elif wrap == "reduce":
+        recipe = ("reduce", rng.choice(["add", "max"]), root, ("i",), ())
+    else:
+        recipe = ("unary", "neg", root)
+    return ctx, recipe
+
+
+# ---------------------------------------------------------------------------------------------
+# lazy Align wrappers as operands of NON-COMMUTATIVE binary ops
+# ---------------------------------------------------------------------------------------------
+
+for _n, _o in (("pow", ops.pow),):
+    gen_terms.OPS.setdefault(_n, _o)
+NONCOMM = ["sub", "truediv", "pow", "lt", "le", "gt", "ge", "sub", "truediv"]
+ALIGN_POS = ["right", "left", "both"]
+ALIGN_GRID = [(pos, op) for pos in ALIGN_POS for op in ("sub", "truediv", "pow", "lt", "le", "gt", "ge")]
+
+
+def gen_align_noncomm(rng, k, rot):
+    """L op R with a non-commutative op, where the right / left / both operands are `.align(names)` of a
+    compound sub-term (a real re-ordering: full permutations and partial name tuples).  Eagerly `.align` is
+    Tensor.align (a plain Tensor); under lazy / reflect it is a lazy Align that reaches the
+    (Binary, Op, Funsor|Align, Align|Funsor) rules on reinterpretation."""
+    pos, op = ALIGN_GRID[k] if k < len(ALIGN_GRID) else ALIGN_GRID[(k + rot) % len(ALIGN_GRID)]
+    ctx = gen_ctx(rng)
+    while len(ctx) < 2:
+        ctx[NAMES[len(ctx)]] = rng.choice([2, 3])
+    names = list(ctx)
+
+    def tensor(ns, vals):
+        tt = gen_terms.gen_tensor(rng, ctx, "real", names=ns)
+        data = np.array([rng.choice(vals) for _ in range(tt[4].size)], dtype=np.float64).reshape(tt[4].shape)
+        return tt[:4] + (data,)
+
+    def compound(role):
+        ns1 = [n for n in names if rng.random() < 0.7] or [names[0]]
+        ns2 = [n for n in names if rng.random() < 0.7] or [names[-1]]
+        if op == "truediv" and role == "right":
+            vals, bop = [1.0, 2.0, 4.0, -2.0, 0.5], "mul"          # power-of-two denominators: exact
+        elif op == "truediv":
+            vals, bop = [1.0, 2.0, 3.0, -1.0, 0.0], rng.choice(["mul", "add", "sub"])
+        elif op == "pow" and role == "right":
+            vals, bop = [0.0, 1.0], "add"                            # exponents in {0, 1, 2}
+        elif op == "pow":
+            vals, bop = [-2.0, -1.0, 1.0, 2.0, 3.0], rng.choice(["mul", "add"])
+        else:
+            vals, bop = [-2.0, -1.0, 0.0, 1.0, 2.0, 3.0], rng.choice(["mul", "add", "sub"])
+        c = ("binary", bop, tensor(ns1, vals), tensor(ns2, vals))
+        return c, sorted(set(ns1) | set(ns2))
+
+    def aligned(role):
+        c, ns = compound(role)
+        perm = list(ns)
+        if len(perm) >= 2:
+            while perm == ns:
+                rng.shuffle(perm)
+            if rng.random() < 0.3:
+                perm = perm[:-1]                                     # partial name tuple
+                if perm == ns[:len(perm)]:
+                    perm = [ns[-1]]
+        return ("align", c, tuple(perm))
+    L = aligned("left") if pos in ("left", "both") else compound("left")[0]
+    R = aligned("right") if pos in ("right", "both") else compound("right")[0]
+    if rng.random() < 0.3:
+        (L if False else None)
+        if pos == "right":
+            L = L[2]                                                 # a plain Tensor on the other side
+        elif pos == "left":
+            R = R[3]
+    recipe = ("binary", op, L, R)
+    wrap = rng.choice(["none", "none", "reduce", "neg", "sub-again"])
+    if op in ("lt", "le", "gt", "ge"):
+        wrap = "none"
+    if wrap == "reduce":
+        _, free = recipe_wire(recipe)
+        fn = sorted(free)
+        if fn:
+            recipe = ("reduce", rng.choice(["add", "max"]), recipe, (rng.choice(fn),), ())
+    elif wrap == "neg":
+        recipe = ("unary", "neg", recipe)
+    elif wrap == "sub-again" and op != "pow":
+        c2, ns2 = compound("left")
+        recipe = ("binary", "sub", c2, ("align", recipe, tuple(reversed(sorted(recipe_wire(recipe)[1])))))
+    return ctx, recipe
+
+
 def cases(base_seed, n):
     """The seeded case list: [(ctx, recipe, family, env)]; env binds the free real inputs; the pseudo-binding
     "__approx__" marks expressions with inexact ops (compared after rounding)."""
@@ -531,17 +673,29 @@ def cases(base_seed, n):
     grid0 = 0
     user0 = 0
     subs0 = 0
+    align0 = 0
+    dup0 = 0
     for idx in range(n):
         if idx % 5 == 4:
             ctx, recipe = gen_sum_product(rng)
             out.append((ctx, recipe, "sum-product", {}))
-        elif idx % 5 == 2:
+        elif idx % 10 == 7:
+            ctx, recipe = gen_dup_children(rng, dup0, rot)
+            dup0 += 1
+            if carrier_risky(recipe):
+                recipe = to_nonneg(recipe)
+            out.append((ctx, recipe, "dup-children(variadic node lists one child twice)", {}))
+        elif idx % 10 == 2:
             ctx, recipe, env = gen_seq_lazy(rng)
             out.append((ctx, recipe, "seq-lazy", env))
         elif idx % 10 == 0:
             ctx, recipe = gen_user_term(rng, user0, rot)
             user0 += 1
             out.append((ctx, recipe, "user-terms(make_funsor)", {}))
+        elif idx % 10 == 8:
+            ctx, recipe = gen_align_noncomm(rng, align0, rot)
+            align0 += 1
+            out.append((ctx, recipe, "align-noncommutative(lazy Align operands of sub/truediv/pow/comparisons)", {}))
         elif idx % 10 == 3:
             ctx, recipe = gen_subs_grid(rng, subs0, rot)
             subs0 += 1
@@ -690,6 +844,12 @@ def recipe_wire(r):
             sizes.append(f[r[1]])
             rest.append({k: v for k, v in f.items() if k != r[1]})
         return ["cat", Q(r[1]), Q(r[1]), sizes] + list(ws), _merge({r[1]: sum(sizes)}, *rest)
+    if tag == "align":
+        wa, fa = recipe_wire(r[1])
+        for n in r[2]:
+            if n not in fa:
+                raise IllFormed(f"align name {n} not an input")
+        return ["align", wa, [Q(n) for n in r[2]]], fa
     if tag == "user":
         return recipe_wire(user_spec(r))
     if tag == "reduceall":
